@@ -553,7 +553,8 @@ def inv_chain1(converters, case_sensitive, rv, converter, _i, _xs, _outer_i, _ou
                 and rv.records[k].prefix == _pre(_xs[k].prefix) and rv.records[k].uri_prefix == _pre(_xs[k].uri_prefix) for k in range(_i)))))
 
 
-@lemma("C09.chain_single_is_identity", props=["C09"])
+@lemma("C09.chain_single_is_identity", props=["C09"],
+       bounded_only="needs 'chain([c]) never raises', which the prover-side contract of chain leaves open (may_raise: bridging is decided natively by simulation)")
 def l_c09_single(conv: Converter, s: str, p: str):
     requires(WF(conv))
     c2 = chain([conv])
